@@ -8,6 +8,7 @@ import (
 	"fmt"
 	"go/types"
 	"os"
+	"path/filepath"
 	"runtime/debug"
 	"strconv"
 	"strings"
@@ -58,7 +59,7 @@ func main() {
 		}
 		cur := p
 		merged := map[string][]byte{}
-		for round := 0; round < 4; round++ {
+		for round := 0; round < 8; round++ {
 			ov, names := core.NormaliseOverlay(cur, rules.AnchorsByName(cur))
 			if len(ov) == 0 {
 				break
@@ -111,6 +112,7 @@ func cmdCheck(args []string) int {
 		return 2
 	}
 	start := time.Now()
+	loadKnownKeys(*verif)
 	cfgs := core.Configs[:1]
 	if *tier == "thorough" {
 		cfgs = core.Configs
@@ -193,10 +195,24 @@ func runOne(pr *rules.Property, repo string, cfg core.Config) (rp *core.Report, 
 	return best, nil
 }
 
+// knownKeys: keys of the recorded known findings (status "known"); a violated
+// obligation with such a key is reported as KNOWN-FINDING by Finish and does not
+// count as open when the two forms of the program are compared.
+var knownKeys = map[string]bool{}
+
+func loadKnownKeys(verifDir string) {
+	ks, _ := core.LoadKnown(filepath.Join(verifDir, "known_findings.json"))
+	for _, k := range ks {
+		if k.Status == "known" {
+			knownKeys[k.Key] = true
+		}
+	}
+}
+
 func nBad(rp *core.Report) int {
 	n := 0
 	for _, o := range rp.Obs {
-		if o.Status == core.Violated || o.Status == core.Undecided {
+		if o.Status == core.Undecided || o.Status == core.Violated && !knownKeys[o.Key] {
 			n++
 		}
 	}
@@ -206,13 +222,22 @@ func nBad(rp *core.Report) int {
 func runNormalised(pr *rules.Property, repo string, cfg core.Config, p *core.Program, anchors func(*core.Program) func(*types.Func) bool) (rp *core.Report) {
 	defer func() {
 		if x := recover(); x != nil {
+			if os.Getenv("SPG_DEBUG") != "" {
+				fmt.Fprintf(os.Stderr, "normalised run panicked: %v\n%s\n", x, debug.Stack())
+			}
 			rp = nil
 		}
 	}()
+	// the expander rewrites syntax trees in place: work on a private load of the same source
+	base, lerr := core.Load(repo, cfg)
+	if lerr != nil {
+		return nil
+	}
+	p = base
 	cur := p
 	merged := map[string][]byte{}
 	var inlined []string
-	for round := 0; round < 4; round++ {
+	for round := 0; round < 8; round++ {
 		ov, names := core.NormaliseOverlay(cur, anchors(cur))
 		if len(ov) == 0 {
 			break
@@ -223,6 +248,9 @@ func runNormalised(pr *rules.Property, repo string, cfg core.Config, p *core.Pro
 		inlined = append(inlined, names...)
 		next, err := core.LoadOverlay(repo, cfg, merged)
 		if err != nil {
+			if os.Getenv("SPG_DEBUG") != "" {
+				fmt.Fprintf(os.Stderr, "normal form does not type-check: %v\n", err)
+			}
 			return nil // the normal form does not type-check: discard it
 		}
 		cur = next
@@ -235,6 +263,14 @@ func runNormalised(pr *rules.Property, repo string, cfg core.Config, p *core.Pro
 	rp.Count("module_packages", len(cur.Pkgs))
 	rp.Count("module_functions", len(cur.ModuleFuncs()))
 	pr.Run(cur, rp)
+	if os.Getenv("SPG_DEBUG") != "" {
+		fmt.Fprintf(os.Stderr, "normal form (expanded %v): %d open obligation(s)\n", inlined, nBad(rp))
+		for _, o := range rp.Obs {
+			if o.Status == core.Violated || o.Status == core.Undecided {
+				fmt.Fprintf(os.Stderr, "   %s %s %s: %s\n", o.Rule, o.Construct, o.Pos, o.Detail)
+			}
+		}
+	}
 	return rp
 }
 
